@@ -257,6 +257,10 @@ def step (line : String) : String :=
   match line.splitOn " => " with
   | [req, impl] =>
     match words req with
+    | ["connresp", _op, _ver, _k, _len, digest] =>
+      -- a well-formed response delivered in two pieces cut at k: decoded without error, exactly the frame
+      -- consumed (0 bytes left in the Conn's buffer), same values as encoded
+      answer s!"ok 0 {digest}" (impl == s!"ok 0 {digest}")
     | op :: i :: ver :: rest =>
       match getCase i ver with
       | none => "bad-case"
